@@ -35,7 +35,7 @@ def gen_stack(ch, max_components=4):
             'routed': tgt < 4,
             'sink': tgt == 5,                                  # unrouted path served by a sink
             'split': ch.draw(n + 1, 'mw_split') if n else 0,   # components [split:] are added via add_middleware()
-            'class_hooks': bool(ch.draw(3, 'class_hooks') == 2)}
+            'class_hooks': [0, 0, 1, 2][ch.draw(4, 'class_hooks')]}   # 1: on the class, 2: responder inherited
 
 
 class Stack(object):
@@ -190,7 +190,11 @@ class Stack(object):
                     class_level.append(falcon.after(mk(site)))
                 else:
                     fn = falcon.after(mk(site))(fn)
-        Res = type('Res', (object,), {'on_get': fn})
+        if plan.get('class_hooks') == 2:
+            # the decorated class inherits its responder from an undecorated base
+            Res = type('Res', (type('Base', (object,), {'on_get': fn}),), {})
+        else:
+            Res = type('Res', (object,), {'on_get': fn})
         for deco in class_level:      # the outermost hook is applied to the resource class
             Res = deco(Res)
         self.resource = Res()
